@@ -6,6 +6,7 @@ import forward_common as fw
 def run(ctx):
     q = ctx.quick()
     fw.l1(ctx)
+    fw.graph(ctx, q)
     fw.traces(ctx, "c03", 3000 if q else 120000)
     ctx.cov["rule"] = ("seeded random programs recorded from the real RustRuleEngine and interpreted by TLC: programs of 1-5 rules built to self-trigger and mutually trigger (counter moves guarded by bounds), max_cycles from {0,1,2,3,5,8,17,64}, timeout disabled; Ok/Err, cycle_count, rules_evaluated, rules_fired must equal the interpreter's, cycle_count <= max_cycles, rules_fired = |log|, and when the run stopped before the bound no still-eligible rule has a true condition on the final facts (evaluated by TLC); the recorder runs under a watchdog; "
                        "distinct_nontrivial = number of rule firings in the recorded runs")
